@@ -322,6 +322,18 @@ func vfH_C09_hdrframes() {
 	r.output = make(chan queuedFrame, 64)
 	m := uint32(16 + vfrt.Choice("max-frame-size", 12)) // small sizes so that the encoded block needs several frames
 	r.maxFrameSize = m
+	// the endpoint this relay reads from may announce a larger SETTINGS_MAX_FRAME_SIZE of its own: that is its
+	// receive limit and binds the opposite relay, not the frames this relay sends on
+	if vfrt.Choice("source-announces-larger-frames", 2) == 1 {
+		var peerOut bytes.Buffer
+		peer := newRelay(ServerToClient, "s", "c", nil, http2.NewFramer(&peerOut, nil), &off)
+		peer.output = make(chan queuedFrame, 64)
+		r.peer, peer.peer = peer, r
+		sf, serr := http2.NewFramer(nil, bytes.NewReader(vfFrame(4, 0, 0, []byte{0, 5, 0, 1, 0, 0}))).ReadFrame() // MAX_FRAME_SIZE = 65536
+		vfrt.Assert(serr == nil && r.processFrame(sf) == nil, "hdrframes/settings-processed")
+		vfrt.Assert(r.maxFrameSize == m && peer.maxFrameSize == 65536, "hdrframes/announced-frame-size-binds-the-frames-sent-to-the-announcer-only")
+		out.Reset() // the relayed SETTINGS frame itself is not under test here
+	}
 	headers := []hpack.HeaderField{{Name: ":method", Value: "GET"}, {Name: ":path", Value: "/a/rather/long/path/to/make/the/block/larger"}, {Name: "x-custom-header", Value: "some-value-that-is-not-in-the-static-table"}}
 	kind := vfrt.Choice("kind", 3)
 	var prio http2.PriorityParam
